@@ -215,7 +215,9 @@ PLANS["C11"] = {
     },
 }
 
-STD_PANIC = [r"(placeholder message|left != right).*standardized_moment"]
+# assert_ne!(variance, 0.) in standardized_moment: Kani reports it inside core::panicking::assert_failed_inner with a placeholder message
+STD_PANIC = [r"placeholder message.*assert_failed"]
+STD_PANIC_NATIVE = [r"left != right"]
 PLANS["C16"] = {
     "k": [
         K("c16::empty", timeout=600, note="every accessor of every estimator on new() and default(): documented sentinel, no panic"),
@@ -230,7 +232,7 @@ PLANS["C16"] = {
         K("c16::const_kurtosis", timeout=600, note="same for Kurtosis"),
         K("c16::const_moments4", timeout=900, note="same for Moments4"),
         K("c16::const_covariance", timeout=600, note="same for Covariance"),
-        K("c16::std_moment_zero_variance", must_panic=True, allow_fail=STD_PANIC, require_fail=STD_PANIC, allow_panic=STD_PANIC,
+        K("c16::std_moment_zero_variance", must_panic=True, allow_fail=STD_PANIC, require_fail=STD_PANIC, allow_panic=STD_PANIC_NATIVE,
           note="standardized_moment(3|4) at zero variance asserts (the documented exception)"),
         K("c16::const_moments5", tier="thorough", timeout=1800, note="define_moments!(M5,5) constant stream step"),
     ],
@@ -264,7 +266,7 @@ PLANS["C17"] = {
     },
 }
 
-QUICK_C20 = {("mean3", "a"), ("mean3", "b"), ("variance3", "a"), ("variance3", "b"), ("skewness3", "b")}
+QUICK_C20 = {("mean3", "a"), ("mean3", "b"), ("variance3", "a"), ("variance3", "b"), ("skewness3", "b"), ("weighted_err3", "a"), ("covariance3", "b")}
 PLANS["C20"] = {
     "k": [
     ] + [K("c20::%s%s" % (h, s), timeout=600 if (h, s) in QUICK_C20 else 3600, tier="quick" if (h, s) in QUICK_C20 else "thorough",
@@ -360,7 +362,7 @@ PLANS["C19"] = {
                                                               "both bracketings, identity insertions at every node: exactly the sequential extreme"),
         K("c19::mean_len", crate="avk-rayon", timeout=900, note="Mean: len() == number of items for every schedule; empty input gives an empty estimator; f64 and &f64 items"),
         K("c19::variance_len", crate="avk-rayon", timeout=1200, note="Variance"),
-        K("c19::skewness_len", crate="avk-rayon", timeout=1800, note="Skewness"),
+        K("c19::skewness_len", crate="avk-rayon", tier="thorough", timeout=5400, note="Skewness"),
         K("c19::mean_two_items", crate="avk-rayon", timeout=1200, note="two items: parallel mean inside [min,max] bit-precisely, for every schedule"),
         K("c19::kurtosis_len", crate="avk-rayon", tier="thorough", timeout=3600, note="Kurtosis"),
         K("c19::moments4_len", crate="avk-rayon", tier="thorough", timeout=3600, note="Moments4"),
